@@ -3,6 +3,6 @@
 set -e
 cd "$(dirname "$0")"
 mkdir -p gen ../build
-( cd gen && coqc -Q ../../coq GJ ../Extract.v -o /verif/build/Extract.vo )
+( cd gen && coqc -Q ../../coq GJ ../Extract.v -o ../../build/Extract.vo )
 cp driver.ml gen/driver.ml
 ( cd gen && ocamlfind ocamlopt -O3 -w -a -o ../../build/runner model.mli model.ml driver.ml 2>/dev/null || ocamlfind ocamlopt -w -a -o ../../build/runner model.mli model.ml driver.ml )
